@@ -66,21 +66,24 @@ impl Clone for CloneIter {
     }
 }
 
-/// Item answering `a` on the first `as_ref` and `b` afterwards (state shared by clones).
+/// Item answering `a` on the first `as_ref`, `b` on the second and a third, different slice
+/// `c` of the same length afterwards (state shared by clones).  Correct code calls `as_ref` once per
+/// pass, so `c` must never be observed.
 #[derive(Clone)]
 struct FlipRef {
     a: Vec<u8>,
     b: Vec<u8>,
+    c: Vec<u8>,
     calls: Rc<Cell<u32>>,
 }
 impl AsRef<[u8]> for FlipRef {
     fn as_ref(&self) -> &[u8] {
         let n = self.calls.get();
         self.calls.set(n + 1);
-        if n == 0 {
-            &self.a
-        } else {
-            &self.b
+        match n {
+            0 => &self.a,
+            1 => &self.b,
+            _ => &self.c,
         }
     }
 }
@@ -218,6 +221,10 @@ fn join_vec(ps: &Pieces, sep: &[u8]) -> Vec<u8> {
 
 #[allow(clippy::too_many_arguments)]
 fn run_case<B: Backend>(bk: &str, st: &mut Stats, lean: &mut Option<LeanDriver>, ps1: &Pieces, ps2: &Pieces, sep: &[u8], utf8: bool) {
+    if let Ok(t) = std::env::var("VERIF_TRACE") {
+        // crash localisation: record the case about to run
+        let _ = std::fs::write(&t, format!("{bk} concat/join sep={} pass1={} pass2={}\n", hex(sep), pieces_str(ps1), pieces_str(ps2)));
+    }
     let consistent = ps1 == ps2;
     let same_count = ps1.len() == ps2.len();
     let std_concat = ps1.concat();
@@ -242,7 +249,7 @@ fn run_case<B: Backend>(bk: &str, st: &mut Stats, lean: &mut Option<LeanDriver>,
     // flavour 2: FlipRef (same item count)
     if same_count {
         let items = || -> Vec<FlipRef> {
-            ps1.iter().zip(ps2.iter()).map(|(a, b)| FlipRef { a: a.clone(), b: b.clone(), calls: Rc::new(Cell::new(0)) }).collect()
+            ps1.iter().zip(ps2.iter()).map(|(a, b)| FlipRef { a: a.clone(), b: b.clone(), c: vec![b'~'; b.len()], calls: Rc::new(Cell::new(0)) }).collect()
         };
         cases.push((format!("HipByt<{bk}>::concat[FlipRef]"), observe_byt::<B>(|| HipByt::concat(items())), false));
         cases.push((format!("HipByt<{bk}>::join[FlipRef]"), observe_byt::<B>(|| HipByt::join(items(), sep)), true));
@@ -416,11 +423,52 @@ fn main() {
         }
     }
 
+    // repeat: contents equal std's and the representation is normalised, for every (len, n) in 0..=30
+    fn repeat_sweep<B: Backend>(bk: &str, st: &mut Stats) {
+        for len in 0..=30usize {
+            let src = piece(len, 1);
+            for (rname, h) in [("owned", HipByt::<B>::from(&src[..])), ("borrowed", HipByt::<B>::borrowed(Box::leak(src.clone().into_boxed_slice())))] {
+                for n in 0..=30usize {
+                    st.evaluations += 1;
+                    let o = observe_byt::<B>(|| h.repeat(n).into_owned());
+                    let want = src.repeat(n);
+                    let input = format!("HipByt<{bk}>::repeat repr={rname} len={len} n={n}");
+                    st.distinct.insert(format!("repeat {bk} {rname} {len} {n}"));
+                    let ok = match &o {
+                        Obs::Value { bytes, heap, normalized, .. } => {
+                            // n == 1 and empty sources are clones: a borrowed source stays borrowed (normalised)
+                            bytes == &want && *normalized && (*heap == (bytes.len() > 23) || (rname == "borrowed" && !*heap))
+                        }
+                        Obs::Panic => false,
+                    };
+                    st.hit(format!("repeat {}", if want.len() > 23 { "heap-sized" } else { "inline-sized" }));
+                    if !ok {
+                        st.disagree("impl-vs-oracle", input, format!("value {} normalised", hex(&want)), obs_line(&o));
+                    }
+                }
+            }
+            let text = "é".repeat(len / 2) + if len % 2 == 1 { "x" } else { "" };
+            let hs = HipStr::<B>::from(text.as_str());
+            for n in [0usize, 1, 2, 3, 11, 12, 23, 24] {
+                st.evaluations += 1;
+                let o = observe_str::<B>(|| hs.repeat(n));
+                let want = text.repeat(n);
+                let ok = matches!(&o, Obs::Value { bytes, heap, normalized: true, utf8_ok: true } if bytes == want.as_bytes() && *heap == (bytes.len() > 23));
+                if !ok {
+                    st.disagree("impl-vs-oracle", format!("HipStr<{bk}>::repeat text={} n={n}", hex(text.as_bytes())), format!("value {} normalised", hex(want.as_bytes())), obs_line(&o));
+                }
+            }
+        }
+    }
+    repeat_sweep::<Arc>("Arc", &mut st);
+    repeat_sweep::<HRc>("Rc", &mut st);
+    repeat_sweep::<Unique>("Unique", &mut st);
+
     let checks = lean.as_mut().map(|l| l.ask("checks").unwrap_or_default()).unwrap_or_default();
     let out = serde_json::json!({
         "evaluations": st.evaluations,
         "distinct_nontrivial": st.distinct.len(),
-        "rule": "all piece lists of 0-3 pieces over lengths {0,1,11,12,23,24} (thorough: +2,22,30) plus seeded random lists of 4-6 pieces of length 0-30, each with second-pass variants {same, different content, last longer, last shorter, fewer items, all empty, bytes moved, swapped, one more item, one more empty item, no item} x separators of 0,1,3 bytes x {concat, join} x {HipByt, HipStr} x misbehaviour flavour {Clone yields other pieces, AsRef flips between calls} x backends; slice forms on consistent scripts; distinct = distinct (api, flavour, pass1, pass2, sep)",
+        "rule": "all piece lists of 0-3 pieces over lengths {0,1,11,12,23,24} (thorough: +2,22,30) plus seeded random lists of 4-6 pieces of length 0-30, each with second-pass variants {same, different content, last longer, last shorter, fewer items, all empty, bytes moved, swapped, one more item, one more empty item, no item} x separators of 0,1,3 bytes x {concat, join} x {HipByt, HipStr} x misbehaviour flavour {Clone yields other pieces, AsRef flips between calls} x backends; slice forms on consistent scripts; repeat for every (len, n) in 0..=30 x 0..=30 x {owned, borrowed} x backends; distinct = distinct (api, flavour, pass1, pass2, sep)",
         "exhaustive": false,
         "distribution": st.dist,
         "samples": st.samples,
